@@ -3,11 +3,15 @@
 
    kind "collect": one call of MeasureClockOffsets under virtual time
      args  ctx [ [kind t e ok ts off] ... ] [ [ts off err] ... ] [ probe times ]
-     outs  class R [ [ts off err] ... ] [ completion time of every clock ] [ goroutines at every probe ] goroutines-after-teardown
+     outs  class R [ [ts off err] ... ] [ completion time of every clock ] [ goroutines at every probe ] goroutines-after-teardown late
+           (the slice is the copy taken at the return instant; late = 1 if the caller's slice changed afterwards;
+            ts = -2^63 stands for the zero time.Time; the 4th field of a clock script is 1 for success, else how it fails)
+   kind "collect.raw": collectMeasurements itself through the hook, producers of the harness
+     outs  class R j [ms'] [completions] [goroutines] after late
    kind "history": several calls on ONE collector object, one after the other
    kind "race": several calls on ONE collector object made by different goroutines at the same instant
      args  [ [start ctx [clocks] [ms0]] ... ] tend variant
-     outs  [ [class R [ms'] [completions]] ... ] goroutines-at-tend goroutines-after-teardown
+     outs  [ [class R [ms'] [completions] late] ... ] goroutines-at-tend goroutines-after-teardown
    ctx = [hasD D hasC C F]: a context with deadline D (if hasD), cancelled explicitly at C (if
    hasC) and in any case at F (the harness's final cancel, after the last observation); its Done
    channel closes at the earliest of these.
@@ -16,7 +20,8 @@
    to be done and completes e later; kind 4 never completes (until the case is torn down).
    class: 0 returned, 1 panic (lengths), 2 panic (too many in progress), 3 panic (inconsistent count), 4 other panic. *)
 From Coq Require Import ZArith List String Bool.
-From ST Require Import Base.Value Model.Collect Extract.GlueBase.
+From ST Require Import Base.Value Base.Sorting Model.Collect Extract.GlueBase.
+From ST Require Model.Ftm.
 Import ListNotations.
 Open Scope string_scope.
 Open Scope Z_scope.
@@ -50,7 +55,7 @@ Definition clock_of_value (D : Z) (v : value) : option clock :=
   match v with
   | VL [VZ kind; VZ t; VZ e; VZ ok; VZ ts; VZ off] =>
       Some {| c_done := if kind =? 4 then None else Some (script_time D kind t e);
-              c_res := {| m_ts := ts; m_off := off; m_err := (ok =? 0) |} |}
+              c_res := {| m_ts := ts; m_off := off; m_err := negb (ok =? 1) |} |}
   | _ => None end.
 Fixpoint clock_list (D : Z) (l : list value) : option (list clock) :=
   match l with
@@ -111,8 +116,9 @@ Fixpoint probes_agree (sc : scen) (g : list nat) (tps cnts : list Z) : bool :=
   end.
 Fixpoint probes_oracle (sc : scen) (r : Z) (tps cnts : list Z) : bool :=
   match tps, cnts with
-  | tp :: tps', c :: cnts' => C16_leak_ok sc r tp c && probes_oracle sc r tps' cnts'
-  | _, _ => true
+  | [], [] => true
+  | tp :: tps', c :: cnts' => C16_leak_ok sc r tp c && C16_alive_ok sc r tp c && probes_oracle sc r tps' cnts'
+  | _, _ => false
   end.
 
 (* the calls of the clocks returned when the scenario says (a clock that never completes is
@@ -135,13 +141,13 @@ Definition round_verdict (sc : scen) (r : Z) (ms' : list meas) (comps tps cnts :
   (agree, C16_round_ok sc r ms' && probes_oracle sc r tps cnts).
 
 (* ---- histories on one collector ---- *)
-Record hobs := { ho_start : Z; ho_sc : scen; ho_cls : Z; ho_ret : Z; ho_ms : list meas; ho_comps : list Z }.
+Record hobs := { ho_start : Z; ho_sc : scen; ho_cls : Z; ho_ret : Z; ho_ms : list meas; ho_comps : list Z; ho_late : Z }.
 
 Definition hobs_of (a o : value) : option hobs :=
   match a, o with
-  | VL [VZ s; ctx; VL clks; VL ms0], VL [VZ cls; VZ r; VL ms'; VL comps] =>
+  | VL [VZ s; ctx; VL clks; VL ms0], VL [VZ cls; VZ r; VL ms'; VL comps; VZ late] =>
       match scen_of ctx clks ms0, meas_list ms', getZs comps with
-      | Some sc, Some m', Some cs => Some {| ho_start := s; ho_sc := sc; ho_cls := cls; ho_ret := r; ho_ms := m'; ho_comps := cs |}
+      | Some sc, Some m', Some cs => Some {| ho_start := s; ho_sc := sc; ho_cls := cls; ho_ret := r; ho_ms := m'; ho_comps := cs; ho_late := late |}
       | _, _, _ => None end
   | _, _ => None end.
 Fixpoint hobs_list (a o : list value) : option (list hobs) :=
@@ -180,9 +186,9 @@ Fixpoint hist_walk (id : nat) (g : gst) (act : list (nat * Z)) (hs : list hobs)
       let cls := class_of out in
       if cls =? 0 then
         let sched := find_schedule sc (ho_ret h) (ho_ms h) in
-        let a := ok1 && (ho_cls h =? 0) && (ho_ret h =? expected_ret sc) && comps_agree sc (ho_comps h)
+        let a := ok1 && (ho_cls h =? 0) && (ho_late h =? 0) && (ho_ret h =? expected_ret sc) && comps_agree sc (ho_comps h)
                  && match sched with Some _ => true | None => false end in
-        let o := if ho_cls h =? 0 then C16_round_ok sc (ho_ret h) (ho_ms h) else true in
+        let o := if ho_cls h =? 0 then C16_round_ok sc (ho_ret h) (ho_ms h) && (ho_late h =? 0) else true in
         let '(a', o', l) := hist_walk (S id) g2 ((id, ho_start h + expected_ret sc) :: act1) rest in
         (a && a', o && o', match sched with Some gg => (ho_start h, sc, gg) :: l | None => l end)
       else
@@ -217,12 +223,13 @@ Definition gobs_of (h : hobs) : gobs :=
 (* nothing may be left at tend once every call has returned and every started clock has returned *)
 Definition hist_leak_ok (hs : list hobs) (tend cnt : Z) : bool :=
   if forallb (fun h => if ho_cls h =? 0 then all_done_by (ho_sc h) (tend - ho_start h) && (ho_start h + ho_ret h <=? tend) else true) hs
-  then cnt =? 0 else true.
+  then cnt =? 0
+  else cnt <=? fold_right (fun h acc => (if ho_cls h =? 0 then C16_alive_bound (ho_sc h) (ho_ret h) (tend - ho_start h) else 0) + acc) 0 hs.
 
 (* ---- iterations of sync.Run ----
    kind "sync.round": the real sync.Run driven for a few iterations
      args  T I [ [ [ref scripts] [peer scripts] ] ... ]          (SyncTimeout, SyncInterval, one entry per iteration)
-     outs  class [ [start do sleep sleepdur [ref invoked] [ref completed] [peer invoked] [peer completed]] ... ] leak
+     outs  class [ [start do correction sleep sleepdur [ref invoked] [ref completed] [peer invoked] [peer completed]] ... ] leak
    all instants since the start of the bubble.  Each collection is an instance of the collector
    model with deadline T; Run appends its local clock (answers at once) to a non-empty peer list. *)
 Definition local_clock : clock := {| c_done := Some 0; c_res := meas_zero |}.
@@ -231,37 +238,89 @@ Definition plain_scen (T : Z) (clks : list value) (extra : list clock) : option 
   | Some cs => Some {| s_deadline := T; s_clocks := cs ++ extra; s_ms0 := repeat meas_zero (List.length (cs ++ extra)) |}
   | None => None end.
 
-Fixpoint sync_rounds (T Iv : Z) (rounds obs : list value) (start : Z) : option (bool * bool) :=
+(* the correction Run hands over, when it is determined: no source completes exactly at the
+   deadline in this or an earlier iteration (otherwise which results were in time is the
+   scheduler's choice), no clamping (the fake clock reports a huge drift), cutoff 0.
+   Each slice is reused from iteration to iteration and left sorted by FaultTolerantMidpoint. *)
+Definition tie_free (sc : scen) : bool :=
+  forallb (fun k => negb (by_dl sc k && negb (before_dl sc k))) (seq 0 (nclk sc)).
+Definition early_offsets (sc : scen) : list Z :=
+  map (fun k => m_off (cres sc k)) (filter (fun k => cok sc k && before_dl sc k) (seq 0 (nclk sc))).
+Definition next_slice (sc : scen) (old : list Z) : list Z :=
+  let e := early_offsets sc in zsort (e ++ skipn (List.length e) old).
+Definition slice_ftm (l : list Z) : Z := match Ftm.ftm l with Some x => x | None => 0 end.
+Definition correction (nref npeer : nat) (rs ps : list Z) : Z :=
+  let ro := slice_ftm rs in let po := slice_ftm ps in
+  let rok := negb (Nat.eqb nref 0) in
+  let pok := negb (Nat.eqb npeer 0) && (0 <? Z.abs po) in
+  if rok && negb pok then ro else if negb rok && pok then po else if rok && pok then Ftm.midpoint ro po else 0.
+
+(* vals = the two slices as they are before the iteration, if known *)
+Fixpoint sync_rounds (T Iv : Z) (rounds obs : list value) (start : Z) (vals : option (list Z * list Z)) : option (bool * bool) :=
   match rounds, obs with
-  | VL [VL refs; VL peers] :: rounds', VL [VZ st; VZ d; VZ sl; VZ dur; VL invr; VL compr; VL invp; VL compp] :: obs' =>
+  | VL [VL refs; VL peers] :: rounds', VL [VZ st; VZ d; VZ darg; VZ sl; VZ dur; VL invr; VL compr; VL invp; VL compp] :: obs' =>
       match plain_scen T refs [], plain_scen T peers [], plain_scen T peers (match peers with [] => [] | _ => [local_clock] end),
             getZs invr, getZs compr, getZs invp, getZs compp with
       | Some sc_r, Some sc_p0, Some sc_p, Some invr, Some compr, Some invp, Some compp =>
           let exp := Z.max (expected_ret sc_r) (expected_ret sc_p) in
+          let vals' :=
+            match vals with
+            | Some (rs, ps) => if tie_free sc_r && tie_free sc_p then Some (next_slice sc_r rs, next_slice sc_p ps) else None
+            | None => None end in
           let ag := (st =? start) && (d - st =? exp) && (sl =? d) && (dur =? Iv)
                     && forallb (fun x => x =? st) invr && forallb (fun x => x =? st) invp
-                    && comps_agree sc_r (map (fun c => c - st) compr) && comps_agree sc_p0 (map (fun c => c - st) compp) in
+                    && comps_agree sc_r (map (fun c => c - st) compr) && comps_agree sc_p0 (map (fun c => c - st) compp)
+                    && match vals' with
+                       | Some (rs, ps) => darg =? correction (nclk sc_r) (nclk sc_p0) rs ps
+                       | None => true end in
           let orc := C16_sync_round_ok sc_r sc_p (d - st) in
-          match sync_rounds T Iv rounds' obs' (sl + Iv) with
+          match sync_rounds T Iv rounds' obs' (sl + Iv) vals' with
           | Some (ag', orc') => Some (ag && ag', orc && orc')
           | None => None end
       | _, _, _, _, _, _, _ => None end
-  | [], _ => Some (true, true)
-  | _, [] => Some (true, true)
-  | _, _ => None
+  | [], [] => Some (true, true)
+  | _, _ => Some (false, false)     (* an iteration without its observation (or the reverse) *)
   end.
+
+(* the slices Run allocates: all zero *)
+Definition first_slices (rounds : list value) : option (list Z * list Z) :=
+  match rounds with
+  | VL [VL refs; VL peers] :: _ =>
+      Some (repeat 0 (List.length refs), repeat 0 (match peers with [] => 0%nat | _ => S (List.length peers) end))
+  | _ => None end.
 
 Definition glue_C16 (k : string) (a o : list value) : option verdict :=
   if is k "collect" then
     match a, o with
-    | [ctx; VL clks; VL ms0; VL tps], [VZ cls; VZ r; VL ms'; VL comps; VL cnts; VZ after] =>
+    | [ctx; VL clks; VL ms0; VL tps], [VZ cls; VZ r; VL ms'; VL comps; VL cnts; VZ after; VZ late] =>
         match scen_of ctx clks ms0, meas_list ms', getZs comps, getZs tps, getZs cnts with
         | Some sc, Some m', Some cs, Some tps, Some cnts =>
             if Nat.eqb (List.length (s_ms0 sc)) (nclk sc) then
               let '(ag, orc) := round_verdict sc r m' cs tps cnts in
-              Some (relational ((cls =? 0) && ag && (after =? 0)) ((cls =? 0) && orc && (after =? 0)))
+              let fine := (cls =? 0) && (after =? 0) && (late =? 0) in
+              Some (relational (fine && ag) (fine && orc))
             else
-              Some (relational ((cls =? 1) && meas_list_eqb m' (s_ms0 sc)) true)
+              (* lengths differ: refused before anything starts, nothing touched, nothing left *)
+              let fine := (cls =? 1) && meas_list_eqb m' (s_ms0 sc) && (after =? 0) && (late =? 0) in
+              Some (relational fine fine)
+        | _, _, _, _, _ => None end
+    | _, _ => None end
+  else if is k "collect.raw" then
+    (* collectMeasurements itself (through the hook), with the harness's own producers: the count it returns is observed *)
+    match a, o with
+    | [ctx; VL clks; VL ms0; VL tps], [VZ cls; VZ r; VZ j; VL ms'; VL comps; VL cnts; VZ after; VZ late] =>
+        match scen_of ctx clks ms0, meas_list ms', getZs comps, getZs tps, getZs cnts with
+        | Some sc, Some m', Some cs, Some tps, Some cnts =>
+            if Nat.eqb (List.length (s_ms0 sc)) (nclk sc) && (0 <=? j) then
+              let fine := (cls =? 0) && (after =? 0) && (late =? 0) in
+              let agree :=
+                (r =? expected_ret sc) && comps_agree sc cs &&
+                match try_front sc r m' (Z.to_nat j) with
+                | Some g => probes_agree sc g tps cnts
+                | None => false
+                end in
+              Some (relational (fine && agree) (fine && C16_raw_ok sc r (Z.to_nat j) m' && probes_oracle sc r tps cnts))
+            else None
         | _, _, _, _, _ => None end
     | _, _ => None end
   else if is k "history" then
@@ -287,14 +346,14 @@ Definition glue_C16 (k : string) (a o : list value) : option verdict :=
                          let '(ag, _, l) := hist_walk 0 ginit [] hs' in
                          ag && match alive_sum l tend with Some x => x =? cnt | None => false end)
                       (perms hs) in
-            let orc := forallb (fun h => if ho_cls h =? 0 then C16_round_ok (ho_sc h) (ho_ret h) (ho_ms h) else true) hs in
+            let orc := forallb (fun h => if ho_cls h =? 0 then C16_round_ok (ho_sc h) (ho_ret h) (ho_ms h) && (ho_late h =? 0) else true) hs in
             Some (relational agree (orc && C16_concurrent_ok (map gobs_of hs) && hist_leak_ok hs tend cnt && (after =? 0)))
         | None => None end
     | _, _ => None end
   else if is k "sync.round" then
     match a, o with
     | [VZ T; VZ Iv; VL rounds], [VZ cls; VL obs; VZ after] =>
-        match sync_rounds T Iv rounds obs 0 with
+        match sync_rounds T Iv rounds obs 0 (first_slices rounds) with
         | Some (ag, orc) =>
             let fine := (cls =? 0) && (after =? 0) && Nat.eqb (List.length rounds) (List.length obs) in
             Some (relational (fine && ag) (fine && orc))
